@@ -1,8 +1,8 @@
 (* C17 - Intersections do not depend on how the same geometry is presented (partial: kernel equivariances in exact
    arithmetic; that the CONVERGED answers coincide is a metamorphic support sweep). Statements only. *)
-From Coq Require Import List Arith ZArith QArith Bool String.
+From Coq Require Import List Arith ZArith QArith Bool String Permutation.
 From BZ Require Import Base.Ops Base.PyVal Model.Curve Gen.PyFnGeometric Theory.CurveEval Theory.CurveElevate Theory.TriEdges
-  Theory.Predicates Theory.Presentation.
+  Theory.Predicates Theory.Presentation Model.Rounds Theory.RoundSwap.
 Import ListNotations.
 
 (* reversing a curve maps its parameter to 1 - s *)
@@ -34,3 +34,14 @@ Theorem C17_argument_swap_boxes : forall l1 r1 b1 t1 l2 r2 b2 t2 : Q,
   bbox_intersect_boxes l1 r1 b1 t1 l2 r2 b2 t2 = bbox_intersect_boxes l2 r2 b2 t2 l1 r1 b1 t1.
 Proof. exact bbox_intersect_symmetric. Qed.
 Print Assumptions C17_argument_swap_boxes.
+
+(* swapping the two curves: one round of the candidate flow of all_intersections (executable model Model/Rounds.v, corresponded
+   with the real loop) applied to the swapped candidates gives the swapped candidates - as a multiset, the product order of the
+   four pairs of halves changes - and the swapped events in the same order; so the 64-candidate rule, which only counts,
+   and the end-games see the same pairs with s and t exchanged *)
+Theorem C17_candidate_flow_is_swap_equivariant : forall cands,
+  Forall (fun p => wf_cand (fst p) /\ wf_cand (snd p)) cands ->
+  Permutation (map swapc (fst (one_round cands))) (fst (one_round (map swapc cands))) /\
+  map swap_ev (snd (one_round cands)) = snd (one_round (map swapc cands)).
+Proof. exact one_round_swap. Qed.
+Print Assumptions C17_candidate_flow_is_swap_equivariant.
